@@ -384,7 +384,7 @@ fn systematic(orig: &[u8]) -> Vec<Vec<u8>> {
     let Some(nodes) = der::parse_nodes(orig) else { return out };
     let total = der::count_nodes(&nodes);
     for target in 0..total {
-        for opt in 0..13usize {
+        for opt in 0..26usize {
             let mut n2 = nodes.clone();
             let mut idx = target;
             let mut changed = false;
@@ -424,6 +424,10 @@ fn systematic(orig: &[u8]) -> Vec<Vec<u8>> {
                         (0x01, 0) => Some(vec![]), (0x01, 1) => Some(vec![1]), (0x01, 2) => Some(vec![0, 0]),
                         (0x17 | 0x18, k) if !c.is_empty() && k < 6 => { let mut v = c.clone(); let p = (k * 5) % v.len(); v[p] = b" /+-.:"[k]; Some(v) }
                         (0x17 | 0x18, 6) => Some(vec![]),
+                        // IA5String (manifest file names, URIs): one character replaced by those next to the letters and
+                        // digits in the ASCII table, separators, controls and a non-ASCII octet — first and second position
+                        (0x16, k) if !c.is_empty() => { let mut v = c.clone(); let pos = if k % 2 == 0 { 0 } else { 1.min(v.len() - 1) };
+                            v[pos] = b"[\\]^`@{/. \x00\x7f\x80"[(k / 2 + (pos * 7)) % 13]; Some(v) }
                         (0x17 | 0x18, 7) if !c.is_empty() => { let mut v = c.clone(); v.pop(); Some(v) }
                         _ => None,
                     };
